@@ -532,14 +532,20 @@ func ruleC04Interfaces(w *World, r *Report) {
 	for _, c := range applies {
 		k, _ := constInt(c.Common().Args[1])
 		r.check(k == 1, "R04.4", in, "interfaces are INSERTed", w.Pos(c.Pos()), "Update_INSERT", fmt.Sprintf("update type %d", k))
-		// both entries are appended to the slice passed
-		nAppend := 0
-		allInstrs(ii, func(i ssa.Instruction) {
-			if cc, ok := i.(*ssa.Call); ok && calleeName(cc) == "builtin.append" {
-				nAppend++
+		// the slice written holds exactly the two entries built above (appended one by one or listed in a literal)
+		args := c.Common().Args
+		elems, okE := sliceElems(args[len(args)-1], 0)
+		built := map[ssa.Value]bool{}
+		for _, bc := range calls {
+			built[extractOf(bc.(*ssa.Call), 0)] = true
+		}
+		nBuilt := 0
+		for _, e := range elems {
+			if built[e] {
+				nBuilt++
 			}
-		})
-		r.check(nAppend == 2, "R04.4", in, "two entries collected", w.Pos(c.Pos()), "2 appends", fmt.Sprintf("%d entries collected", nAppend))
+		}
+		r.check(okE && len(elems) == 2 && nBuilt == 2, "R04.4", in, "two entries collected", w.Pos(c.Pos()), "the UE pool entry and the N3 entry", fmt.Sprintf("%d entries collected, %d of them built here", len(elems), nBuilt))
 		// every return with nil error passes the write
 		for _, ret := range returnsOf(ii) {
 			if isNilConst(res(ret, 0)) {
@@ -978,4 +984,65 @@ func up4CallersHandAll(w *World, r *Report, rule string) {
 			r.check(k == x.typ, rule, w.FuncName(f), fmt.Sprintf("update type %d", x.typ), w.Pos(c.Pos()), fmt.Sprint(k), fmt.Sprintf("update type %d", k))
 		}
 	}
+}
+
+// sliceElems: the element values of a slice built from a composite literal, make + appends, or
+// append chains (elements in order). ok == false when the construction is not understood.
+func sliceElems(v ssa.Value, depth int) ([]ssa.Value, bool) {
+	if depth > 12 {
+		return nil, false
+	}
+	switch x := v.(type) {
+	case *ssa.MakeSlice:
+		if k, isK := constInt(x.Len); isK && k == 0 {
+			return nil, true
+		}
+		return nil, false
+	case *ssa.Const:
+		return nil, x.Value == nil
+	case *ssa.Slice:
+		// literal: slice of a fresh array whose elements are stored one by one
+		al, ok := x.X.(*ssa.Alloc)
+		if !ok || al.Referrers() == nil {
+			return nil, false
+		}
+		if k, isK := constInt(x.High); x.High != nil && isK && k == 0 {
+			return nil, true // make([]T, 0, n) with constant n
+		}
+		if x.Low != nil || x.High != nil {
+			return nil, false
+		}
+		byIdx := map[int64]ssa.Value{}
+		for _, ref := range *al.Referrers() {
+			ia, ok := ref.(*ssa.IndexAddr)
+			if !ok || ia.Referrers() == nil {
+				continue
+			}
+			k, isK := constInt(ia.Index)
+			if !isK {
+				return nil, false
+			}
+			for _, r2 := range *ia.Referrers() {
+				if st, ok := r2.(*ssa.Store); ok && st.Addr == ssa.Value(ia) {
+					byIdx[k] = st.Val
+				}
+			}
+		}
+		var out []ssa.Value
+		for k := int64(0); k < int64(len(byIdx)); k++ {
+			e, ok := byIdx[k]
+			if !ok {
+				return nil, false
+			}
+			out = append(out, e)
+		}
+		return out, true
+	case *ssa.Call:
+		if b, ok := x.Call.Value.(*ssa.Builtin); ok && b.Name() == "append" && len(x.Call.Args) == 2 {
+			base, ok1 := sliceElems(x.Call.Args[0], depth+1)
+			more, ok2 := sliceElems(x.Call.Args[1], depth+1)
+			return append(append([]ssa.Value{}, base...), more...), ok1 && ok2
+		}
+	}
+	return nil, false
 }
